@@ -43,6 +43,8 @@ pub struct ExecShared {
     /// contract only requires the waker of the MOST RECENT poll to be honoured)
     pub gen: Vec<u32>,
     pub stale_wakes: u64,
+    /// F-ready: gates that completed in their very first poll
+    pub ready_now: u64,
     pub spawn_queue: Vec<Spawned>,
     pub current: u32,
     pub active: bool,
@@ -54,6 +56,7 @@ pub static EXEC: Mutex<ExecShared> = Mutex::new(ExecShared {
     alive: Vec::new(),
     gen: Vec::new(),
     stale_wakes: 0,
+    ready_now: 0,
     spawn_queue: Vec::new(),
     current: 0,
     active: false,
@@ -144,6 +147,24 @@ impl<T> Future for Gate<T> {
         }
         match self.gid {
             None => {
+                // F-ready: the plan makes some futures complete in their very first poll (like `future::ready` or an
+                // `async` block without an await point), unless they have to wait for a dependency
+                let ready_now = {
+                    let g = lock();
+                    g.plan.ready_pm > 0
+                        && crate::rng::hash_all(&[g.plan.ready_seed, self.ev as u64, self.occ as u64]) % 1000 < g.plan.ready_pm as u64
+                        && g.dep_ok(self.ev, self.occ)
+                };
+                if ready_now {
+                    let task = {
+                        let mut e = ex();
+                        e.ready_now += 1;
+                        e.current
+                    };
+                    self.gid = Some(u32::MAX);
+                    lock().push(task, Ph::Arrive, self.ev, self.occ, self.dg);
+                    return Poll::Ready(self.pass(task));
+                }
                 let (gid, task) = {
                     let mut e = ex();
                     let task = e.current;
@@ -337,6 +358,7 @@ pub struct AsyncRun<R> {
     pub max_pending_gates: u32,
     pub cancel_with_live_tasks: bool,
     pub stale_wakes: u64,
+    pub ready_now: u64,
 }
 
 pub const ASYNC_STEP_CAP: u64 = 20_000;
@@ -372,6 +394,7 @@ pub fn run_root<R: 'static>(mk: impl FnOnce() -> Pin<Box<dyn Future<Output = R> 
         e.alive.clear();
         e.gen.clear();
         e.stale_wakes = 0;
+        e.ready_now = 0;
         e.spawn_queue.clear();
         e.current = 0;
         e.active = true;
@@ -396,6 +419,7 @@ pub fn run_root<R: 'static>(mk: impl FnOnce() -> Pin<Box<dyn Future<Output = R> 
                 max_pending_gates: 0,
                 cancel_with_live_tasks: false,
                 stale_wakes: 0,
+                ready_now: 0,
             };
         }
     };
@@ -641,8 +665,10 @@ pub fn run_root<R: 'static>(mk: impl FnOnce() -> Pin<Box<dyn Future<Output = R> 
     }
     let value = out_cell.borrow_mut().take();
     let stale_wakes = ex().stale_wakes;
+    let ready_now = ex().ready_now;
     AsyncRun {
         stale_wakes,
+        ready_now,
         end: end.unwrap_or(AsyncEnd::Hang),
         value,
         decisions: std::mem::take(&mut chooser.recorded),
